@@ -93,6 +93,9 @@ def gen_case(rng):
         aero = rng.random() < 0.1
         terms.append(dict(pos=10 + i, isz=isz, osz=osz,
                           fmmu=rng.random() < 0.6, rw=rng.random() < 0.6,
+                          sharers=[rng.choice("rw") for _ in range(
+                              rng.choice([0, 0, 0, 1, 2]))],
+                          sharers_first=rng.random() < 0.5,
                           aero=aero,
                           decl_in=rng.randint(1, 40) if aero else None,
                           decl_out=rng.randint(1, 40) if aero else None))
@@ -145,6 +148,17 @@ def check_case(case, res, sess):
             a = PacketVar(ts[i], SyncManager.IN, 0, "B")
             b = PacketVar(ts[i], SyncManager.OUT, 0, "B") if d["rw"] else None
             devs.append(Dev(a, b))
+            # further devices sharing the terminal, some only reading it:
+            # the terminal is written if ANY of its devices writes
+            for extra in d.get("sharers", []):
+                a2 = PacketVar(ts[i], SyncManager.IN, 0, "B")
+                b2 = PacketVar(ts[i], SyncManager.OUT, 0, "B") \
+                    if extra == "w" and d["rw"] else None
+                if d.get("sharers_first"):
+                    devs.insert(len(devs) - 1, Dev(a2, b2))
+                else:
+                    devs.append(Dev(a2, b2))
+                res.count("devices_sharing_a_terminal")
         total = 16
         try:
             sg = (FastSyncGroup if fast else SyncGroup)(ec, devs)
